@@ -577,9 +577,11 @@ impl BuiltInFunction {
                     format!("string bottom index `{top}` could not be used to index (usize)")
                 })?;
 
-                let start = top - bottom + 1;
+                if bottom > top || top > s.len() {
+                    bail!("cannot delete {bottom}..{top} from a string of length {}", s.len())
+                }
 
-                let mut result = String::with_capacity(s.len() - start);
+                let mut result = String::with_capacity(s.len());
 
                 result.push_str(&s[..bottom]);
                 result.push_str(&s[top..]);
